@@ -100,7 +100,7 @@ theorem reply_msg_facts (st : Store) (hs : StoreOK st) (b e n : Int) (m : OutMsg
     exact ⟨(hs.ent _ hmem).1, h3.1⟩
 
 theorem seg_of_chain (st : Store) (lt : Option Int) {a c : Int} {reps : List Rep} (hc : Chain a reps c)
-    (hw : ∀ r ∈ reps, Wire st (r.outR lt)) (hm : ∀ n m, Rep.msg n m ∈ reps → m.seq = n ∧ isAdminKind m.kind = false) :
+    (hw : ∀ r ∈ reps, Wire st (Rep.outR lt r)) (hm : ∀ n m, Rep.msg n m ∈ reps → m.seq = n ∧ isAdminKind m.kind = false) :
     Seg st a (reps.map (Rep.outR lt)) c := by
   induction hc with
   | nil a => exact .nil a
@@ -118,10 +118,10 @@ theorem seg_of_chain (st : Store) (lt : Option Int) {a c : Int} {reps : List Rep
       exact .msg (hw _ List.mem_cons_self) (show (resent m).seq = n from h1) (quiet_of_app (show isAdminKind (resent m).kind = false from h2)) ih'
 
 /-- the reply to a ResendRequest for `[b, e]` (every number of the range stored) is a run covering `b … e` -/
-theorem seg_reply (st : Store) (hs : StoreOK st) (lt : Option Int) (b e : Int) (hlo : -9223372036854775808 ≤ b) (hbe : b ≤ e) (he : e ≤ st.sender - 1)
-    (hall : st.HoldsAll b e) : Seg st b (replyPlanR lt true st b e) (e + 1) :=
+theorem seg_reply (st : Store) (hs : StoreOK st) (b e : Int) (hlo : -9223372036854775808 ≤ b) (hbe : b ≤ e) (he : e ≤ st.sender - 1)
+    (lt : Option Int) (hall : st.HoldsAll b e) : Seg st b (replyPlanR lt true st b e) (e + 1) :=
   seg_of_chain st lt (C03_cover st b e hbe hall)
-    (fun r hr => wire_reply st hs lt b e hlo he (r.outR lt) (List.mem_map.2 ⟨r, hr, rfl⟩))
+    (fun r hr => wire_reply st hs lt b e hlo he (Rep.outR lt r) (List.mem_map.2 ⟨r, hr, rfl⟩))
     (fun n m hr => reply_msg_facts st hs b e n m hr)
 
 /-! ### every number used is stored -/
